@@ -12,8 +12,12 @@
 //!
 //! ```text
 //! C19 s<schedule seed> r<reps> L:<name>:<dir>:<file>;<file>... (one token per layer, layercontents order)
+//!      [O:<op>;<op>...]   history applied to the loaded font through the public API before the save, in both builds
 //!      file = <key>,<file name>,<name attribute>,<body seed>,<bad>,<base>+<base>...
-//!  => Qok|Qerr  D:<name>:<dir>:<len>:<glyph>;...  S:<dir>:<file name>=<name in file>;...  H<tree hash>
+//!      op   = ig.<layer>.<name>.<seed> (insert_glyph) | rg.<layer>.<name> (remove_glyph)
+//!           | mg.<layer>.<old>.<new> (rename_glyph, no overwrite) | eo.<layer>.<name>.<seed> (entry(..).or_insert)
+//!  => Qok|Qerr  D:<name>:<dir>:<len>:<glyph>;... [E:... the same after the history]
+//!     S:<dir>:<file name>=<name in file>;...  H<tree hash>
 //!     P<threads>:<reps>:<dumps equal>:<saves>:<listings equal>:<hashes equal> (x4)
 //!     [ X<threads> Xok|Xerr XD:... XS:... XH<hash> ]      first repetition that differs, if any
 //!      glyph = <name>,<body>,<key finds it>,<base>+<base>...
@@ -229,12 +233,65 @@ pub fn tree_hash(out: &Path) -> u64 {
     h
 }
 
-/// one load (+ save): (status+dump, listing, hash).  Save is skipped when `save` is false.
-pub fn load_dump_save(tree: &Path, out: &Path, save: bool) -> (String, String, String) {
+/// a glyph built through the API whose body is what `seed` generates (no components)
+fn api_glyph(name: &str, seed: u64) -> Glyph {
+    let mut g = Glyph::new(name);
+    let b = body_of(seed, 0);
+    g.width = seed as f64;
+    if let Some(c) = b.code.and_then(char::from_u32) {
+        g.codepoints = norad::Codepoints::new([c]);
+    }
+    for c in &b.contours {
+        let pts = c
+            .iter()
+            .map(|(x, y)| norad::ContourPoint::new(*x as f64, *y as f64, norad::PointType::Line, false, None, None))
+            .collect();
+        g.contours.push(norad::Contour::new(pts, None));
+    }
+    g
+}
+
+/// the history of a line, applied through the public API; `layers` = layer names in input order
+pub fn apply_ops(font: &mut Font, ops: &str, layers: &[String]) {
+    let body = ops.strip_prefix("O:").unwrap_or(ops);
+    for op in body.split(';').filter(|o| !o.is_empty()) {
+        let f: Vec<&str> = op.split('.').collect();
+        let li: usize = f[1].parse().unwrap();
+        let layer = match layers.get(li).and_then(|n| font.layers.get_mut(n)) {
+            Some(l) => l,
+            None => continue,
+        };
+        let name = unhexs(f[2]);
+        match f[0] {
+            "ig" => layer.insert_glyph(api_glyph(&name, f[3].parse().unwrap())),
+            "rg" => {
+                layer.remove_glyph(&name);
+            }
+            "mg" => {
+                let _ = layer.rename_glyph(&name, &unhexs(f[3]), false);
+            }
+            "eo" => {
+                let g = api_glyph(&name, f[3].parse().unwrap());
+                layer.entry(g.name().clone()).or_insert(g);
+            }
+            _ => {}
+        }
+    }
+}
+
+/// one load (+ history) (+ save): (status+dumps, listing, hash).  Save is skipped when `save` is false.
+pub fn load_dump_save(tree: &Path, out: &Path, save: bool, ops: &str, layers: &[String]) -> (String, String, String) {
     let loaded = guarded(|| Font::load(tree));
     match loaded {
-        Ok(Ok(font)) => {
-            let d = format!("Qok {}", dump_font(&font));
+        Ok(Ok(mut font)) => {
+            let mut d = format!("Qok {}", dump_font(&font));
+            if !ops.is_empty() {
+                if guarded(|| apply_ops(&mut font, ops, layers)).is_err() {
+                    d.push_str(" E-panic");
+                }
+                d.push(' ');
+                d.push_str(&dump_font(&font).replace("D:", "E:"));
+            }
             if !save {
                 return (d, String::new(), String::new());
             }
@@ -254,7 +311,7 @@ pub fn load_dump_save(tree: &Path, out: &Path, save: bool) -> (String, String, S
     }
 }
 
-/// `harness c19w <tree> <out> <reps> <save_every> <hash of expected dump> <of listing> <tree hash token>`
+/// `harness c19w <tree> <out> <reps> <save_every> <hash of expected dump> <of listing> <tree hash token> [<O:ops> <layer names>]`
 /// one line per repetition: three flags (dump, listing, hash equal; `-` = no save in this repetition), and the
 /// full result after ` | ` for the first repetition that differs.
 pub fn worker(args: &[String], out: &mut dyn Write) {
@@ -263,10 +320,12 @@ pub fn worker(args: &[String], out: &mut dyn Write) {
     let reps: usize = args[2].parse().unwrap();
     let save_every: usize = args[3].parse().unwrap();
     let (ed, es, eh) = (&args[4], &args[5], &args[6]);
+    let ops = args.get(7).cloned().unwrap_or_default();
+    let layers: Vec<String> = args.get(8).map(|a| a.split(',').filter(|t| !t.is_empty()).map(unhexs).collect()).unwrap_or_default();
     let mut reported = false;
     for rep in 0..reps {
         let save = save_every > 0 && rep % save_every == 0;
-        let (d, s, h) = load_dump_save(&tree, &outdir, save);
+        let (d, s, h) = load_dump_save(&tree, &outdir, save, &ops, &layers);
         let fd = format!("{:016x}", fnv(d.as_bytes())) == *ed;
         let fs_ = !save || format!("{:016x}", fnv(s.as_bytes())) == *es;
         let fh = !save || h == *eh;
@@ -365,7 +424,10 @@ pub fn observe(toks: &[&str], scratch: &Path, min_reps: usize) -> String {
     let out = scratch.join("out.ufo");
     write_tree(&tree, &layers);
     let nfiles: usize = layers.iter().map(|l| l.files.len()).sum();
-    let (d, s, h) = load_dump_save(&tree, &out, true);
+    let ops: String = toks.iter().find(|t| t.starts_with("O:")).map(|t| t.to_string()).unwrap_or_default();
+    let lnames: Vec<String> = layers.iter().map(|l| l.name.clone()).collect();
+    let lnames_arg: String = lnames.iter().map(|n| hexs(n)).collect::<Vec<_>>().join(",");
+    let (d, s, h) = load_dump_save(&tree, &out, true, &ops, &lnames);
     rm_rf(&out);
     let mut obs = vec![d.clone(), s.clone(), h.clone()];
     let (ed, es) = (format!("{:016x}", fnv(d.as_bytes())), format!("{:016x}", fnv(s.as_bytes())));
@@ -386,6 +448,8 @@ pub fn observe(toks: &[&str], scratch: &Path, min_reps: usize) -> String {
                     .arg(&ed)
                     .arg(&es)
                     .arg(&h)
+                    .arg(&ops)
+                    .arg(&lnames_arg)
                     .env("RAYON_NUM_THREADS", k.to_string())
                     .output();
                 let text = match r {
@@ -493,12 +557,35 @@ pub struct Shape {
     pub layers: usize,
     pub bad: bool,
     pub dup: bool,
+    /// 0 = no; 1 = the colliding pair as glyph names and hot component bases in the default layer, one of the two /
+    /// the other / both in the following layers; 2 = the default layer has only the first as a glyph and the second
+    /// as a component base, the next layer has the second as a glyph
+    pub coll: u8,
+    /// very different glyph counts in the non-default layers (1 % .. 100 % of the names)
+    pub uneven: bool,
+    /// position of the default layer in layercontents.plist
+    pub default_pos: usize,
+    /// number of API operations between load and save
+    pub ops: usize,
 }
 
+/// two legal glyph names with the same `DefaultHasher::new()` (SipHash-1-3, zero key) value 5587adf19e07eef0:
+/// boundary case for a name table that compares hashes instead of names.  It covers this one hash function only.
+pub const COLL: [&str; 2] = ["g711c6db79da05b78", "gdde3a1201b0b8338"];
+
 pub fn gen_tree(rng: &mut Rng, sh: &Shape) -> Vec<LayerSpec> {
-    let names = name_pool(rng, sh.glyphs);
-    let hot: Vec<String> = (0..(2 + rng.below(5))).map(|_| rng.pick(&names).clone()).collect();
-    let lnames = ["public.default", "background", "Background", "bg", "layer 1", "Ä"];
+    let mut names = name_pool(rng, sh.glyphs);
+    let mut hot: Vec<String> = (0..(2 + rng.below(5))).map(|_| rng.pick(&names).clone()).collect();
+    if sh.coll > 0 {
+        names.push(COLL[0].to_string());
+        names.push(COLL[1].to_string());
+        hot.push(COLL[0].to_string());
+        hot.push(COLL[1].to_string());
+    }
+    let lnames = [
+        "public.default", "background", "Background", "bg", "layer 1", "Ä", "sketches", "hints", "old", "scratch",
+        "review",
+    ];
     let mut layers = Vec::new();
     let mut fileno = 0usize;
     for li in 0..sh.layers {
@@ -510,13 +597,30 @@ pub fn gen_tree(rng: &mut Rng, sh: &Shape) -> Vec<LayerSpec> {
         let mut keys: Vec<String> = if li == 0 {
             names.clone()
         } else {
-            let keep = 40 + rng.below(61);
+            let keep = if sh.uneven { *rng.pick(&[1usize, 3, 10, 30, 100]) } else { 40 + rng.below(61) };
             let mut ks: Vec<String> = names.iter().filter(|_| rng.below(100) < keep).cloned().collect();
             for j in 0..rng.below(4) {
                 ks.push(format!("only{}.{}", li, j));
             }
             ks
         };
+        if sh.coll > 0 {
+            keys.retain(|k| k != COLL[0] && k != COLL[1]);
+            let which: &[usize] = match (sh.coll, li) {
+                (1, 0) => &[0, 1],
+                (1, _) => match li % 3 {
+                    1 => &[0],
+                    2 => &[1],
+                    _ => &[0, 1],
+                },
+                (_, 0) => &[0],
+                (_, 1) => &[1],
+                _ => &[1, 0],
+            };
+            for w in which {
+                keys.push(COLL[*w].to_string());
+            }
+        }
         keys.sort();
         keys.dedup();
         let mut files: Vec<FileSpec> = Vec::new();
@@ -573,12 +677,78 @@ pub fn gen_tree(rng: &mut Rng, sh: &Shape) -> Vec<LayerSpec> {
         }
         layers.push(LayerSpec { name: lname, dir, files });
     }
+    if sh.default_pos > 0 && layers.len() > 1 {
+        let d = layers.remove(0);
+        let p = sh.default_pos.min(layers.len());
+        layers.insert(p, d);
+    }
     layers
 }
 
-fn emit(out: &mut dyn Write, scratch: &Path, sseed: u64, reps: usize, layers: &[LayerSpec]) {
+/// a history through the public API: names that exist, names that sort early (so that an `entry` glyph shifts many
+/// positions), names used before in the history (remove then insert again, entry then insert / rename / remove)
+pub fn gen_ops(rng: &mut Rng, layers: &[LayerSpec], n: usize) -> String {
+    if n == 0 {
+        return String::new();
+    }
+    let mut ops = Vec::new();
+    let mut used: Vec<(usize, String)> = Vec::new();
+    let fresh = ["0first", "A0", "a0new", "mid.new", "n5x", "zz.last", ".early", "G"];
+    for i in 0..n {
+        let li = if rng.chance(2, 3) { layers.iter().position(|l| l.dir == "glyphs").unwrap_or(0) } else { rng.below(layers.len()) };
+        let keys: Vec<&String> = layers[li].files.iter().map(|f| &f.key).collect();
+        let pick_name = |rng: &mut Rng, used: &Vec<(usize, String)>| -> String {
+            let r = rng.below(100);
+            if r < 35 && !keys.is_empty() {
+                (*rng.pick(&keys)).clone()
+            } else if r < 60 && used.iter().any(|u| u.0 == li) {
+                let mine: Vec<&(usize, String)> = used.iter().filter(|u| u.0 == li).collect();
+                rng.pick(&mine).1.clone()
+            } else if r < 90 {
+                format!("{}{}", rng.pick(&fresh), if rng.chance(1, 2) { String::new() } else { format!("{}", i) })
+            } else if !keys.is_empty() {
+                let k = (*rng.pick(&keys)).clone();
+                variant(rng, &k)
+            } else {
+                "solo".to_string()
+            }
+        };
+        let name = pick_name(rng, &used);
+        if name.is_empty() {
+            continue;
+        }
+        let seed = rng.below(1_000_000);
+        // the first operation of every history is an `entry` insertion of a name that sorts early
+        let kind = if i == 0 { 3 } else { rng.below(4) };
+        let op = match kind {
+            0 => format!("ig.{}.{}.{}", li, hexs(&name), seed),
+            1 => format!("rg.{}.{}", li, hexs(&name)),
+            2 => {
+                let new = pick_name(rng, &used);
+                if new.is_empty() {
+                    continue;
+                }
+                used.push((li, new.clone()));
+                format!("mg.{}.{}.{}", li, hexs(&name), hexs(&new))
+            }
+            _ => {
+                let nm = if i == 0 { rng.pick(&fresh).to_string() } else { name.clone() };
+                used.push((li, nm.clone()));
+                format!("eo.{}.{}.{}", li, hexs(&nm), seed)
+            }
+        };
+        used.push((li, name));
+        ops.push(op);
+    }
+    format!("O:{}", ops.join(";"))
+}
+
+fn emit(out: &mut dyn Write, scratch: &Path, sseed: u64, reps: usize, layers: &[LayerSpec], ops: &str) {
     let mut input = vec!["C19".to_string(), format!("s{}", sseed), format!("r{}", reps)];
     input.extend(layers.iter().map(layer_tok));
+    if !ops.is_empty() {
+        input.push(ops.to_string());
+    }
     let toks: Vec<&str> = input.iter().map(|s| s.as_str()).collect();
     let obs = observe(&toks[1..], scratch, 0);
     writeln!(out, "{} => {}", input.join(" "), obs).unwrap();
@@ -591,7 +761,7 @@ pub fn gen(tier: &str, seed: u64, out: &mut dyn Write) {
     }
     let mut rng = Rng::new(seed ^ 0xC19C19);
     let scratch = scratch();
-    let (reps, ntrees) = if tier == "thorough" { (500, 36) } else { (20, 30) };
+    let (reps, ntrees) = if tier == "thorough" { (500, 36) } else { (20, 36) };
     for t in 0..ntrees {
         let (glyphs, maxl) = match t % 6 {
             0 => (2 + rng.below(13), 4),
@@ -599,9 +769,24 @@ pub fn gen(tier: &str, seed: u64, out: &mut dyn Write) {
             3 | 4 => (150 + rng.below(250), 3),
             _ => (400 + rng.below(300), 2),
         };
-        let sh = Shape { glyphs, layers: 1 + rng.below(maxl), bad: t % 9 == 4, dup: t % 12 == 7 };
+        // every 6th tree (offset 2): 5-8 layers of very different sizes, the default layer somewhere in the middle
+        let many = t % 6 == 2;
+        let layers = if many { 5 + rng.below(4) } else { 1 + rng.below(maxl) };
+        let dup = t % 12 == 7;
+        let bad = t % 9 == 4;
+        let sh = Shape {
+            glyphs: if many { glyphs.min(160) } else { glyphs },
+            layers,
+            bad,
+            dup,
+            coll: if t % 5 == 1 { 1 + (t / 5 % 2) as u8 } else { 0 },
+            uneven: many || rng.chance(1, 4),
+            default_pos: if many || rng.chance(1, 3) { rng.below(layers) } else { 0 },
+            ops: if !dup && !bad && t % 2 == 0 { 1 + rng.below(if t % 4 == 0 { 6 } else { 30 }) } else { 0 },
+        };
         let layers = gen_tree(&mut rng, &sh);
-        emit(out, &scratch, rng.next() % 1_000_000, reps, &layers);
+        let ops = gen_ops(&mut rng, &layers, sh.ops);
+        emit(out, &scratch, rng.next() % 1_000_000, reps, &layers, &ops);
     }
     rm_rf(&scratch);
 }
